@@ -451,6 +451,11 @@ def mem2_newton_solver(
 
         magnitude_current_iterate = np.linalg.norm(current_iterate)
         magnitude_update = np.linalg.norm(update_iterate)
+        if not magnitude_update > 0.0:
+            # Singular (numerically zero) Jacobian: there is no direction left to improve
+            # the iterate. Treat as a failure to converge.
+            convergence = False
+            break
 
         # Do a line search for the optimum decrease. This is intended to stabilize the
         # algorithm as the equations are ill-posed.
@@ -483,14 +488,11 @@ def mem2_newton_solver(
         # We failed to converge after the maximum number of iterations.
         convergence = False
 
-    if not convergence:
-        if use_mem_when_failing_to_converge:
-            directions = np.arctan2(twiddle_factors[1, :], twiddle_factors[0, :])
-            directional_distribution[:] = numba_mem(
-                directions, moments[0], moments[1], moments[2], moments[3]
-            )
-        else:
-            raise ValueError("we did not converge")
+    # Note: if we did not converge we return the distribution of the last iterate (a
+    # valid, normalized distribution). The MEM estimate that used to be evaluated here
+    # was always overwritten below, and could itself divide by zero.
+    if not convergence and not use_mem_when_failing_to_converge:
+        raise ValueError("we did not converge")
 
     directional_distribution[:] = mem2_directional_distribution(
         current_iterate, direction_increment, twiddle_factors
